@@ -260,5 +260,5 @@ def check_circuit(ctx, circuit, ops, what, facts, n_subs):
 
 
 def parts():
-    return [Part("dense_nesting", body, strategy=strat_dense, quick=1200, thorough=5000),
+    return [Part("dense_nesting", body, strategy=strat_dense, quick=2200, thorough=6000),
             Part("programs", body, strategy=strat, quick=2500, thorough=12000, fuzz_quick=0, fuzz_thorough=8000)]
